@@ -144,3 +144,8 @@ def rechecked(fn):
         return f
 
     return wrapper
+
+
+def AX(name, z):
+    """World axiom / arithmetic lemma: assumed wherever the contract is used, never an obligation of a caller."""
+    return Clause(name, z if not isinstance(z, bool) else z3.BoolVal(z), "axiom")
